@@ -104,7 +104,7 @@ ICM(payouts, chips) ==
                           IN IF pos = {} THEN <<0, 1>>
                              ELSE QMul(<<payouts[CHOOSE j \in pos : TRUE], 1>>, OrderProb(chips, o, total))])]
 
-AnalysisKinds == {"range", "rangelist", "equity", "icm"}
+AnalysisKinds == {"range", "rangelist", "equity", "icm", "icmprop"}
 
 ARep(k, it, what) == PrintT(<<"MISMATCH", k, it.kind, what, it>>)
 
@@ -144,9 +144,23 @@ IcmItemOK(k, it) ==
      /\ (\A i, j \in N : (it.chips[i] <= it.chips[j] /\ it.sorted) => QLeq(v[i], v[j])) \/ ARep(k, it, <<"spec: not monotone", v>>)
      /\ \A i \in N : Norm(<<it.got[i][1], it.got[i][2]>>) = v[i] \/ ARep(k, it, <<"player", i, "spec", v[i], "code", it.got[i]>>)
 
+\* what the property says of the values alone (stack ratios beyond the exact model's integer range); values in millionths,
+\* one unit of slack per player for the rounding of the projection
+IcmPropOK(k, it) ==
+  LET N == DOMAIN it.chips
+      kk == IF Len(it.payouts) < Len(it.chips) THEN Len(it.payouts) ELSE Len(it.chips)
+      pool == LET RECURSIVE F(_) F(j) == IF j = 0 THEN 0 ELSE it.payouts[j] + F(j - 1) IN F(kk)
+      sum == LET RECURSIVE G(_) G(j) == IF j = 0 THEN 0 ELSE it.micro[j] + G(j - 1) IN G(Len(it.micro))
+      slack == Len(it.chips)
+  IN /\ (\A i \in N : it.micro[i] >= 0) \/ ARep(k, it, "negative value")
+     /\ (sum - pool * 1000000 <= slack /\ pool * 1000000 - sum <= slack) \/ ARep(k, it, <<"values add up to", sum, "millionths; the prize pool is", pool>>)
+     /\ (\A i, j \in N : (it.chips[i] <= it.chips[j] /\ it.sorted) => it.micro[i] <= it.micro[j] + 1) \/ ARep(k, it, "values not ordered as the chips")
+     /\ (\A i, j \in N : it.chips[i] = it.chips[j] => (it.micro[i] - it.micro[j]) \in -1..1) \/ ARep(k, it, "equal stacks, different values")
+
 AnalysisOK(k, it) ==
   CASE it.kind = "range" -> RangeItemOK(k, it)
     [] it.kind = "rangelist" -> ListItemOK(k, it)
     [] it.kind = "equity" -> EquityItemOK(k, it)
     [] it.kind = "icm" -> IcmItemOK(k, it)
+    [] it.kind = "icmprop" -> IcmPropOK(k, it)
 =============================================================================
